@@ -154,6 +154,9 @@ class Check:
         ok, msg = regen_consts()
         if not ok: proof_ok = False; proof_msg = msg
         if proof_ok:
+            ok, msg = regen_guards()
+            if not ok: proof_ok = False; proof_msg = msg
+        if proof_ok:
             ok, msg = self.regen()
             if not ok: proof_ok = False; proof_msg = msg
         nthm = closed = 0
